@@ -160,6 +160,7 @@ let parse_op (line : string) : bytes op =
   | ["iter_cow"; a; it] -> OIterCow (reg a, items it)
   | ["push"; a; v] -> OPush (reg a, bytes_of_hex v)
   | ["bulk"; a; p] -> OBulk (reg a, pairs p)
+  | ["bulk_via"; a; _; p] -> OBulk (reg a, pairs p)   (* the map entered through get_mut_with / get_cow_with: the model's bulk map is built by insert *)
   | ["apply"; a] -> OApply (reg a)
   | ["pop_front"; a; n] -> OPopFront (reg a, n_of_dec n)
   | ["pop_front_slow"; a; n] -> OPopFrontSlow (reg a, n_of_dec n)
